@@ -340,6 +340,8 @@ def service_can_fail(cfg, name, seen=None):
         return True
     if "NewFail" in s.get("constructor", ""):
         return True
+    if not s.get("constructor") and not s.get("value") and s.get("fields") and str(s.get("type", "")).startswith("*"):
+        return True       # nothing but a pointer type: the zero value (a nil pointer) cannot take a field
     args = gen._all_args(s)
     for dc in cfg.get("decorators", []):
         if dc["tag"] in [t for t, _ in tags_of(s)]:
